@@ -132,7 +132,51 @@ class SessionPlan(Plan):
         return ()
 
     def cases(self, tier, seed):
-        return itertools.chain(self.extra_cases(tier, seed), self.walk_cases(tier, seed))
+        return itertools.chain(self.extra_cases(tier, seed), reentrant_end_cases(), invalid_connect_cases(), self.walk_cases(tier, seed))
+
+
+def invalid_connect_cases():
+    """connect() with arguments it must refuse (nothing written, state unchanged), followed by ordinary
+    use of the same protocol: the refused call must not leave anything behind."""
+    bad = [dict(username="u", password=b"pw"), dict(willTopic="w", willMessage=b"m"), dict(keepalive=70000),
+           dict(willTopic="w", willMessage="m", willQoS=3), dict(version={"level": 5, "tag": "MQTT"}), dict(willTopic="w"), dict(password="p"),
+           dict(username="u" * 65536), dict(willTopic="w" * 65536, willMessage="m")]
+    for prof in ("pubsub", "pub", "sub"):
+        for kw in bad:
+            tail = [("pub", 0, 1), ("sub", 0, "str", 1, 1), ("connect", 0, True, 0, 4), ("pub", 0, 1), ("connack", 0, 0, False), ("pub", 0, 1), ("sub", 0, "str", 1, 0)]
+            yield C.SessionCase("invalid-connect", Cfg(profile=prof), steps=[("build", 0), ("call", 0, "connect", ("cid",), kw)] + tail)
+            yield C.SessionCase("invalid-connect", Cfg(profile=prof, model="tcp"),
+                                steps=[("build", 0), ("call", 0, "connect", ("cid",), kw), ("call", 0, "connect", ("cid",), kw), ("adv", 11)] + tail)
+        yield C.SessionCase("invalid-connect", Cfg(profile=prof), steps=[("build", 0), ("call", 0, "connect", ("x" * 24,), dict(version={"level": 3, "tag": "MQIsdp"}))] + tail)
+
+
+def reentrant_end_cases(places=(None,)):
+    """A session with requests in every stage ends (connection loss of a clean session, or a clean
+    CONNACK over a persistent one) while the application reacts to the failures from inside its
+    errbacks: it publishes again on its current protocol, disconnects, or both.  Shared by all
+    session checks."""
+    def up(clean, win):
+        return [("build", 0), ("setwin", 0, win), ("connect", 0, clean, 0, 4), ("connack", 0, 0, False)]
+    stages = [
+        lambda cl: up(cl, 2) + [("pub", 0, 1)] * 3,                                                 # 2 in flight, 1 held back
+        lambda cl: up(cl, 1) + [("pub", 0, 1), ("pub", 0, 2), ("pub", 0, 1), ("pub", 0, 1)],        # 1 in flight, 3 held back
+        lambda cl: up(cl, 2) + [("pub", 0, 2), ("ack", 0, "PUBREC", "old")] * 2 + [("pub", 0, 1)] * 3,   # 2 released, 2 in flight, 1 held back
+        lambda cl: up(cl, 2) + [("pub", 0, 1)] * 3 + [("sub", 0, "str", 1, 1), ("unsub", 0, "str", 1)],
+    ]
+    behaviours = [dict(re_disc_on="fail"), dict(re_pub_on_fail=True), dict(re_disc_on="fail", re_pub_on_fail=True),
+                  dict(re_pub_on_fail=True, re_connect_on_disc=True)]
+    for stage in stages:
+        for clean1 in (False, True):
+            for win2 in (None, 3):
+                for clean2 in (True, False):
+                    for prepub in (False, True):
+                        steps = stage(clean1) + [("lose", 0, "done"), ("build", 0)] + ([("setwin", 0, win2)] if win2 else [])
+                        steps += [("connect", 0, clean2, 0, 4)] + ([("pub", 0, 1)] if prepub else [])
+                        for place in places:      # (C17) the identifier counter standing just before identifiers of the dying session
+                            tail = ([("placeid", place)] if place is not None else []) + [("connack", 0, 0, False), ("adv", 9), ("pub", 0, 1)]
+                            for model in ("sync", "tcp"):
+                                for kw in behaviours:
+                                    yield C.SessionCase("reentrant-end", Cfg(profile="pubsub", model=model, **kw), steps=steps + tail)
 
 
 def sweep_cases(family, cfgs, prelude, alphabet, depth, postlude=()):
